@@ -423,12 +423,28 @@ pub const SQL_HTTP_ALLOW: SutSpec = SutSpec {
     allow_all: true,
 };
 
+/// the whole front end (storage object, `WebServer`, actix app) built anew before every
+/// request: what a server that is restarted between any two requests looks like
+pub const SQL_HTTP_REOPEN: SutSpec = SutSpec {
+    entry: Entry::Http,
+    backend: BackendKind::Sql,
+    reopen_each: true,
+    allow_all: false,
+};
+pub const SQL_HTTP_ALLOW_REOPEN: SutSpec = SutSpec {
+    entry: Entry::Http,
+    backend: BackendKind::Sql,
+    reopen_each: true,
+    allow_all: true,
+};
+
 impl SutSpec {
     pub fn name(&self) -> &'static str {
         if self.allow_all {
-            return match self.backend {
-                BackendKind::Mem => "MemHttpAllow",
-                BackendKind::Sql => "SqlHttpAllow",
+            return match (self.backend, self.reopen_each) {
+                (BackendKind::Mem, _) => "MemHttpAllow",
+                (BackendKind::Sql, false) => "SqlHttpAllow",
+                (BackendKind::Sql, true) => "SqlHttpAllowReopen",
             };
         }
         match (self.entry, self.backend, self.reopen_each) {
@@ -449,7 +465,7 @@ impl SutSpec {
 }
 
 pub fn spec_from_name(n: &str) -> Option<SutSpec> {
-    [MEM_LIB, SQL_LIB, SQL_LIB_REOPEN, MEM_HTTP, SQL_HTTP, MEM_HTTP_ALLOW, SQL_HTTP_ALLOW].into_iter().find(|s| s.name() == n)
+    [MEM_LIB, SQL_LIB, SQL_LIB_REOPEN, MEM_HTTP, SQL_HTTP, MEM_HTTP_ALLOW, SQL_HTTP_ALLOW, SQL_HTTP_REOPEN, SQL_HTTP_ALLOW_REOPEN].into_iter().find(|s| s.name() == n)
 }
 
 pub fn server_config(cfg: Config) -> ServerConfig {
@@ -987,6 +1003,13 @@ pub fn set_id_family(f: u8) {
     ID_FAMILY.store(f, Ordering::SeqCst);
 }
 
+/// The id-family explorations judge what the protocol shows, not how ids are stored: with an
+/// unusual id a backend may keep in another column type or spelling what it finds again all
+/// the same - or not, and then the API view shows it.
+fn api_view_only() -> bool {
+    ID_FAMILY.load(Ordering::SeqCst) != 0
+}
+
 pub fn client_uuid(seed: u64, c: Cid) -> Uuid {
     match ID_FAMILY.load(Ordering::SeqCst) {
         1 => Uuid::parse_str(&format!("31415926-5358-4979-8323-8462643{:05}", 38327 + c as u32)).unwrap(),
@@ -1325,7 +1348,7 @@ impl SymSut {
     pub fn dump_concrete(&self) -> Dump {
         let ids = self.tab.all_uuids();
         let mut d = dump_api(self.sut.storage(), &self.clients(), &ids);
-        if self.sut.spec.is_sql() {
+        if self.sut.spec.is_sql() && !api_view_only() {
             let raw = dump_sql_raw(self.sut.dir().unwrap());
             // the stored representation of the snapshot time is the backend's business: the
             // API view is authoritative for it, the raw column only has to stay unchanged
@@ -1363,7 +1386,7 @@ impl SymSut {
     /// Cheaper dump for use after every transition: raw tables only for SQLite (one
     /// connection), API view for the in-memory backend.
     pub fn dump_fast(&self) -> Dump {
-        if self.sut.spec.is_sql() {
+        if self.sut.spec.is_sql() && !api_view_only() {
             let mut d = dump_sql_raw(self.sut.dir().unwrap());
             // snapshot times through the API (see dump_concrete)
             let with_snap: Vec<Uuid> = d.clients.iter().filter(|(_, (_, s))| s.is_some()).map(|(c, _)| *c).collect();
